@@ -190,22 +190,26 @@ _LOADB_PROVED = (' Loading a block into the authorizer (load_and_translate_block
                  'Restoring a snapshot (Authorizer::from_snapshot, untrusted bytes): blocks is Some only with at least one block (the decision procedure indexes the authority block); block j is registered in the key -> block map '
                  'exactly when it carries an external key (under some key index), and nothing else is; the token-level trusted set is `previous` at the number of blocks; the version is in the supported range; the limits, the iteration counter '
                  'and the execution time (Some iff non-zero) are the ones of the snapshot. AuthorizerBuilder::from_snapshot accepts only a snapshot with no blocks, no generated facts, zero iterations and zero execution time, in the supported version range, and restores its limits.')
-_LOADB_ASSUME = ['unit loadb: FactSet::insert / RuleSet::insert add exactly the given (origin, fact) / (block, trusted set, rule) entry; conversions between symbol tables are functions of (object, source table) - interning in the target table is not modelled; Rule::validate_variables returns',
+_LOADB_ASSUME = ['unit loadb: FactSet::insert / RuleSet::insert add exactly the given (origin, fact) / (block, trusted set, rule) entry (FactSet::insert: proved in unit factset); conversions between symbol tables are functions of (object, source table) - interning in the target table is not modelled; Rule::validate_variables returns',
                  'unit loadb / build_inner: the statement `blocks = Some(token.blocks().enumerate().map(.. load_and_translate_block ..).collect()?)` is an oracle (rule A5): one decoded block per container block plus the authority, key map only read, '
                  'nothing stored under the authorizer origin; PublicKeys::insert returns the index of the first equal key and appends when absent; HashMap entry().or_default().push() appends to the list under the key; Biscuit::block_count = 1 + container blocks (token invariant rep(), unit token)']
+_FACTSET = {'template': 'factset.rs', 'rlimit': 30, 'items': [r'^datalog::FactSet::(insert|merge)$']}
+_FACTSET_PROVED = (' The fact store (unit factset, the real HashMap<Origin, HashSet<Fact>> representation): FactSet::insert adds exactly the pair (origin, fact) - stored under exactly the given origin, every other entry kept, nothing else added; '
+                   'FactSet::merge leaves exactly the union of both stores, origin by origin (a fact is never moved to, merged into or dropped in favour of another origin).')
+_FACTSET_ASSUME = ['unit factset: std calls vstd does not specify are stubs with assumed contracts - HashMap::get_mut (borrow of the stored value), HashMap::entry(k).or_default() (borrow of the value under k, empty when absent), by-value iteration of a HashMap (every entry), HashSet::extend (union); the derived Hash / Eq of Origin and Fact obey the key model of vstd']
 PROPS['C03'] = {
-    'units': [{'template': 'origin.rs', 'rlimit': 30, 'items': [r'^datalog::origin::']}, _LOADB,
+    'units': [{'template': 'origin.rs', 'rlimit': 30, 'items': [r'^datalog::origin::']}, _LOADB, _FACTSET,
               {'template': 'engine.rs', 'rlimit': 30, 'items': [r'^datalog::World::run_with_limits$']}],
     'proved': 'TrustedOrigins::from_scopes returns, for all scope lists, block indices and key maps, exactly the set trusted_spec of the Biscuit scoping rules '
               '(membership predicate); TrustedOrigins::default = {authority, authorizer}; contains = subset test. Lemmas over the specification: L1 default trust of block i is exactly '
               '{0, i, authorizer}; L2 (attenuation) a later block j is never in the trusted set of anything loaded from block i <= j or from the authorizer unless a scope of the rule or of '
               'its block names a key under which j is registered; L3 previous = {0..=i} + authorizer; L4 a key scope adds exactly the blocks registered under it; L5 visibility is monotone '
               'in the scope and antitone in the fact origin.' + _LOADB_PROVED + ' The fixpoint loop (World::run_with_limits, unit engine, Rule::apply as an oracle): on Ok the fact set is closed under one more application of every stored rule under '
-              'its own trusted set, no derived fact is dropped and facts are never removed.',
+              'its own trusted set, no derived fact is dropped and facts are never removed.' + _FACTSET_PROVED,
     'not_covered': ['the other half of C03: derived-fact origin = union of matched origins + rule block (Rule::apply / CombineIt::next) and the filtering of facts by contains() before matching '
                     '(FactSet::iterator) live in Box<dyn Iterator> + closure code neither verifier ingests; the end-to-end implication "extended token authorized => original authorized" is NOT proved',
                     'construction of public_key_to_block_id (HashMap::entry code in AuthorizerBuilder)'],
-    'assumptions': _ORIGIN_TRUST + _LOADB_ASSUME,
+    'assumptions': _ORIGIN_TRUST + _LOADB_ASSUME + _FACTSET_ASSUME,
     'level_text': 'Deductive proof of the trust-scope half of the property: every trusted-origin set the engine is handed equals the specification set, for all inputs, plus machine-checked lemmas stating '
                   'the attenuation consequences over that specification. The provenance half (engine) is outside this technique here and is stated as not covered.',
 }
@@ -214,7 +218,7 @@ _CLOCK = [r'\.clock(@entry)?$', r'reads (\+ 1 )?== evals']
 PROPS['C04'] = {
     'units': [{'template': 'origin.rs', 'rlimit': 30, 'items': [r'^datalog::origin::']},
               {'template': 'authz.rs', 'rlimit': 60, 'items': [r'^token::authorizer::Authorizer::(authorize_inner|query_inner|query_all_inner)$'], 'exclude_obligations': _CLOCK},
-              {'template': 'engine.rs', 'rlimit': 30, 'items': [r'^datalog::(Rule::(find_match|check_match_all)|World::(query_match|query_match_all|run_with_limits))$']}, _LOADB],
+              {'template': 'engine.rs', 'rlimit': 30, 'items': [r'^datalog::(Rule::(find_match|check_match_all)|World::(query_match|query_match_all|run_with_limits))$']}, _LOADB, _FACTSET],
     'proved': 'scope -> trusted origins: from_scopes equals trusted_spec for all inputs (authority, own block and authorizer by default; changed only by `trusting authority`, `previous` or a public key), '
               'contains is the subset test deciding fact visibility. Decision composition (Authorizer::authorize_inner, for EVERY outcome of the engine oracles): every query is evaluated under exactly the specification '
               'trusted set of its position (authorizer checks and policies: authorizer scopes, origin authorizer; authority checks: block 0; checks of block b: block b); on Ok(i) every authorizer, authority and block check '
@@ -226,10 +230,10 @@ PROPS['C04'] = {
               'has AT LEAST ONE match and every match satisfies every expression (evaluated in order, each match with a fresh temporary symbol table), Ok(false) at the first false expression, InvalidType for a non-boolean one. '
               'The fixpoint loop (World::run_with_limits, the real nested loops over the rule store; Rule::apply is an oracle): on Ok the fact set is CLOSED under one more round - every item that the application of any rule of the store, '
               'under its own trusted set and from its own block, yields over the final fact set is a fact that is already in the set, and none is an expression error (a round that adds nothing is detected by the fact count, '
-              'cardinality lemma); facts are never removed; the rule store and the extern functions are untouched.' + _LOADB_PROVED,
+              'cardinality lemma); facts are never removed; the rule store and the extern functions are untouched.' + _LOADB_PROVED + _FACTSET_PROVED,
     'not_covered': ['the join (CombineIt) and Rule::apply (closures over it): oracles; how the oracles m_one / m_all of unit authz relate to the oracles of unit engine is by name only (both describe World::query_match*)', 'the order of the failed checks in the error value and the exact correspondence of each entry (completeness of the list and `a refusal with an allow policy means some check fails` are proved)',
                     'builder -> Datalog conversion and symbol interning (oracles: the Datalog object is a function of the builder object)', 'query / query_all: the prologue (run, remaining budget) and the conversion of derived facts to the caller type (iterator chains: oracle, rule A5)'],
-    'assumptions': _ORIGIN_TRUST + _LOADB_ASSUME + ['World::query_match / query_match_all return what the oracles m_one / m_all say for (query, origin, trusted set); Check::convert / Rule::convert / scope conversion are functions of their argument',
+    'assumptions': _ORIGIN_TRUST + _LOADB_ASSUME + _FACTSET_ASSUME + ['World::query_match / query_match_all return what the oracles m_one / m_all say for (query, origin, trusted set); Check::convert / Rule::convert / scope conversion are functions of their argument',
                                     'time (Instant) is an uninterpreted input: a Timeout error may be returned at any check', 'Authorizer.blocks, when present, holds at least the authority block (requires blocks_nonempty)'],
     'level_text': 'Deductive proof of the scope computation, of the decision composition and query scoping over all oracle outcomes, of block loading, and of the engine entry points and fixpoint loop relative to oracles for the join iterator, Rule::apply and expression evaluation; the join itself is not verified.',
 }
